@@ -78,6 +78,20 @@ def build(item):
         return dict(harness=h, theory="bv", sig=sig, standins=e3.coverage_standins,
                     desc="single wildcard bin, %d symbolic (value,mask) pattern(s), symbolic sample" % npat)
 
+    if kind == "single_concrete":
+        pats = [tuple(p) for p in item["pats"]]
+        nb = item["nbits"]
+
+        def h(sym):
+            v = sym.int("v", 0, (1 << (nb + 1)) - 1)
+            cg = _mk_cg(vsc, {"w": vsc.wildcard_bin(*pats)}, width=nb + 1)
+            cp = cg.get_model().coverpoint_l[0]
+            cg.sample(v)
+            exp = Or(*[(v & m) == (val & m) for val, m in pats])
+            sym.check("hit_iff_match", (cp.get_bin_hits(0) == 1) == exp)
+        return dict(harness=h, theory="bv", sig=sig, standins=e3.coverage_standins,
+                    desc="single wildcard bin, concrete patterns %s, symbolic sample" % (pats,))
+
     if kind == "single_str":
         strs = item["strs"]
 
@@ -201,6 +215,17 @@ def items_for(t, sd):
     items = [dict(kind="single_tuple", npat=1), dict(kind="single_tuple", npat=2)]
     if t == "thorough":
         items.append(dict(kind="single_tuple", npat=3))
+    # single bins with several concrete (value, mask) patterns: every pair of 2-bit patterns (quick) / 3-bit (thorough),
+    # which includes equal values with different masks, equal masks, nested and disjoint patterns
+    nb = 2 if t == "quick" else 3
+    allp = [(val, m) for val in range(1 << nb) for m in range(1 << nb)]
+    for p1, p2 in itertools.product(allp, repeat=2):
+        items.append(dict(kind="single_concrete", pats=[p1, p2], nbits=nb))
+    for _ in range(60 if t == "quick" else 400):
+        k = rnd.randint(2, 4)
+        items.append(dict(kind="single_concrete", pats=[(rnd.randrange(64), rnd.randrange(64)) for _ in range(k)], nbits=6))
+    items.append(dict(kind="single_str", strs=["0b0x", "0bx0"]))
+    items.append(dict(kind="single_str", strs=["0x0?", "0x?0", "0b0000_0000"]))
     # single bins from strings
     strs = ["0b1x0x", "0bxx01", "0b?1", "0x8x", "0xx2", "0o7x1", "0b1_x0", "0b0000", "0bxxxx", "0x?f?"]
     for s in strs:
